@@ -10,5 +10,6 @@ cd /verif
 for id in "$@"; do
   case "$id" in quick|thorough) tier=$id; continue;; esac
   out=$(VERIF_SCRATCH=/verif/.scratch ./check "$id" $tier 2>&1 | cut -c1-220)
-  echo "$out" | grep -E "VIOLATION|HELD|INCONCLUSIVE|KNOWN" | head -4
+  echo "$out" | grep -E "VIOLATION" | head -3
+  echo "$out" | grep -E "HELD|INCONCLUSIVE" | head -1
 done
